@@ -148,6 +148,12 @@ def run(ctx):
     g = tlc.run("MCGroupIds", "GI_fail.cfg", scratch=ctx.scratch, timeout=600, parse_trace=False)
     if not g.ok:
         ctx.machinery(f"TLC MCGroupIds/GI_fail: {g.violated} {g.error[:300]}")
+    g = tlc.run("MCGroupIds", "GI_exit.cfg", scratch=ctx.scratch, timeout=600, parse_trace=False)
+    if not g.ok:
+        ctx.machinery(f"TLC MCGroupIds/GI_exit: {g.violated} {g.error[:300]}")
+    g = tlc.run("MCGroupIds", "GI_iterskip.cfg", scratch=ctx.scratch, timeout=600, parse_trace=False)
+    if g.violated != "RefusedUpFront":
+        ctx.machinery(f"TLC mutant MCGroupIds/GI_iterskip (lookup walks the live list while a gateway exits) not killed: {g.violated}")
     g = tlc.run("MCGroupIds", "GI_giveback.cfg", scratch=ctx.scratch, timeout=600, parse_trace=False)
     if g.violated != "AutoIdsUnique":
         ctx.machinery(f"TLC mutant MCGroupIds/GI_giveback (counter handed back when a creation fails) not killed: {g.violated}")
